@@ -313,10 +313,10 @@ def marshalM (v : V) : R (Bytes × V) :=
   | _ => .panic
 def unmarshal (recv : V) (data : Slice) : R V :=
   match recv with
-  | .obj "ArpXHaField" [.bytes cur] =>
+  | .obj "ArpXHaField" [.bytes _] =>
     if data.len < 6 then .err else do
       let s ← data.uptoR 6
-      pure (.obj "ArpXHaField" [.bytes (copyInto cur s.bytes)])
+      pure (.obj "ArpXHaField" [.bytes (makeCopy 6 s.bytes)])
   | _ => .panic
 def zero : V := .obj "ArpXHaField" [.bytes []]
 end ArpXHaField
